@@ -23,7 +23,7 @@ def base_programs(seed):
     ]
 
 
-def supervise(exe, bases, muts, out, total, stall=25):
+def supervise(exe, bases, muts, out, total, stall=60):
     """run the harness over all mutations; an abort / timeout / allocation cap is attributed to the case in progress"""
     start, aborts = 0, []
     progress = out + ".progress"
